@@ -212,6 +212,7 @@ pub fn check(v: &View, vd: &mut Verdict) {
         }
     }
     timer_died_early(v, vd, "C10");
+    delayed_body_outlives_actor(v, vd, "C10");
     if multi_fire {
         vd.class("timer_fired_twice");
     }
@@ -305,5 +306,28 @@ fn went_silent(v: &View, vd: &mut Verdict, id: usize, t: &T) {
             format!("C10/timer_went_silent/{:?}", t.kind),
             format!("actor {a}: timer {id} ({:?}, period {}) registered at t={}: the actor was idle from t={idle_from} to t={limit_time} without a tick being delivered", t.kind, t.ticks, t.reg_time),
         );
+    }
+}
+
+/// The body of a `delayed_exec` task is part of the actor's timers: once the actor has ended it
+/// produces no further effects (it is aborted at its next await point).
+pub fn delayed_body_outlives_actor(v: &View, vd: &mut Verdict, prop: &str) {
+    for e in v.hist {
+        let EvKind::Note(n) = &e.kind else { continue };
+        let Some(rest) = n.strip_prefix("delayed-exec-done actor=") else { continue };
+        let mut it = rest.split(" timer=");
+        let (Some(a), Some(t)) = (it.next().and_then(|x| x.parse::<usize>().ok()), it.next().and_then(|x| x.parse::<usize>().ok())) else { continue };
+        let dead = v.dead_from(a);
+        // the body was still running (it sleeps) when the actor task ended, and completed afterwards
+        let ran = v.hist.iter().find(|x| matches!(&x.kind, EvKind::DelayedRan { timer, .. } if *timer == t));
+        if let Some(r) = ran {
+            let end_time = v.hist.iter().find(|x| x.stamp >= dead).map(|x| x.time).unwrap_or(u64::MAX);
+            if r.stamp < dead && e.stamp > dead && e.time > end_time {
+                vd.fail(
+                    format!("{prop}/delayed_exec_body_outlived_actor"),
+                    format!("actor {a} ended at {dead} (t={end_time}); the body of delayed_exec timer {t}, started at {}, ran on and completed at {} (t={})", r.stamp, e.stamp, e.time),
+                );
+            }
+        }
     }
 }
